@@ -119,16 +119,19 @@ pub fn load(specs: Vec<ZoneSpec>) -> Result<Loaded, String> {
 /// that, a not-yet-loaded entry one / two labels below the first zone's apex
 /// is inserted and removed again - the same catalog contents reached through
 /// a longer history (removal prunes tree nodes next to and above live
-/// entries). The expected answers are the same.
+/// entries). 3: the records of every zone are added in the reverse order
+/// (RRsets, and the nodes of the tree, are built in another order). The
+/// expected answers are the same.
 pub fn load_hist(specs: Vec<ZoneSpec>, history: u8) -> Result<Loaded, String> {
     let mut zones = Vec::new();
     let mut models = Vec::new();
     for s in &specs {
-        zones.push(qd::build_zone(&s.apex, s.class, GluePolicy::Narrow, &s.recs).map_err(|(i, e)| format!("zone.add rejected record {i}: {e}"))?);
+        let recs: Vec<_> = if history == 3 { s.recs.iter().rev().cloned().collect() } else { s.recs.clone() };
+        zones.push(qd::build_zone(&s.apex, s.class, GluePolicy::Narrow, &recs).map_err(|(i, e)| format!("zone.add rejected record {i}: {e}"))?);
         models.push(s.model());
     }
     let mut catalog = qd::catalog_of(zones);
-    if history > 0 {
+    if history == 1 || history == 2 {
         if let Some(first) = specs.first() {
             let mut name = wire::child(b"removed", &first.apex);
             if history > 1 {
@@ -638,12 +641,12 @@ pub fn run(ctx: Ctx) -> ! {
         evaluated.fetch_add(1, std::sync::atomic::Ordering::Relaxed);
         // Zones of at most two menu records are also served from a catalog
         // that went through an insertion and removal below the apex.
-        let histories: &[u8] = if subset.len() <= 2 { &[0, 1] } else { &[0] };
+        let histories: &[u8] = if subset.len() <= 2 { &[0, 1, 3] } else { &[0, 3] };
         for &h in histories {
             match load_hist(vec![spec.clone()], h) {
                 Ok(ld) => {
                     let qs = queries_for(&ld, &[Variant::Udp]);
-                    run_queries(l, &ld, if h == 0 { "" } else { "via-removal " }, qs);
+                    run_queries(l, &ld, ["", "via-removal ", "via-removal ", "reverse-order "][h as usize], qs);
                 }
                 Err(e) => l.violation("harness:zone-rejected", json!({"zone": spec.to_json(), "error": e})),
             }
@@ -668,7 +671,7 @@ pub fn run(ctx: Ctx) -> ! {
                 return;
             }
         }
-        for h in [0u8, 1, 2] {
+        for h in [0u8, 1, 2, 3] {
             match load_hist(s.catalog.clone(), h) {
                 Ok(ld) => {
                     let qs = queries_for(&ld, if h == 0 { ALL_VARIANTS } else { &[Variant::Udp] });
@@ -684,7 +687,7 @@ pub fn run(ctx: Ctx) -> ! {
     ctx.assume("responses are small (no truncation; C04 covers size limits)");
     ctx.finish(
         "exploration",
-        "family 1: apex t. with SOA(TTL 3, MINIMUM 5)+NS plus every subset of <= K (4 quick / 5 thorough) records of a 49-record menu (10 owners incl. wildcards, nested names, ENTs; A AAAA TXT NS CNAME MX SRV with in-zone, below-cut, out-of-zone, mixed-case, nonexistent targets), zones outside the statement dropped, x every QNAME of the zone's closure (existing names, RDATA targets, q/*/q.q below each, upper-case spellings) x 10 QTYPEs (A AAAA NS CNAME MX TXT SOA SRV ANY TYPE65280) + names outside the catalog; family 2: structured catalogs (CNAME chains of 1..10 links x 13 endings x entered directly / through a wildcard; loops of length 1..4 after 0..8 links; SOA TTL x MINIMUM grid incl. >= 2^31; classes IN CH HS 65280; nested/sibling/root zones) x 6 well-formed request shapes (UDP, TCP, EDNS, extra records in answer/authority/additional); the structured catalogs and the zones of <= 2 menu records also from a catalog that went through the insertion and removal of an entry below the first apex; each through Server::handle_message, response decoded by the independent codec and RCODE, AA, answer, authority (exact multisets, names case-insensitive) and additional (required/optional sets) compared with the reference resolver refdns.rs",
+        "family 1: apex t. with SOA(TTL 3, MINIMUM 5)+NS plus every subset of <= K (4 quick / 5 thorough) records of a 49-record menu (10 owners incl. wildcards, nested names, ENTs; A AAAA TXT NS CNAME MX SRV with in-zone, below-cut, out-of-zone, mixed-case, nonexistent targets), zones outside the statement dropped, x every QNAME of the zone's closure (existing names, RDATA targets, q/*/q.q below each, upper-case spellings) x 10 QTYPEs (A AAAA NS CNAME MX TXT SOA SRV ANY TYPE65280) + names outside the catalog; family 2: structured catalogs (CNAME chains of 1..10 links x 13 endings x entered directly / through a wildcard; loops of length 1..4 after 0..8 links; SOA TTL x MINIMUM grid incl. >= 2^31; classes IN CH HS 65280; nested/sibling/root zones) x 6 well-formed request shapes (UDP, TCP, EDNS, extra records in answer/authority/additional); the structured catalogs and the zones of <= 2 menu records also from a catalog that went through the insertion and removal of an entry below the first apex, and every zone also with its records added in the reverse order; each through Server::handle_message, response decoded by the independent codec and RCODE, AA, answer, authority (exact multisets, names case-insensitive) and additional (required/optional sets) compared with the reference resolver refdns.rs",
         true,
     );
 }
